@@ -18,6 +18,9 @@ var checks = map[string]func(job *Job, r *Report){
 	"C08": C08,
 	"C06": C06,
 	"C07": C07,
+	"C04": C04,
+	"C05": C05,
+	"C17": C17,
 }
 
 // Main is the entry point of vworker.
